@@ -4,6 +4,15 @@ import json, os, subprocess
 V = os.path.dirname(os.path.abspath(__file__))
 
 CHECKS = {
+ 'C08': dict(cat='model_checking', tech='exhaustive enumeration of all octet / character strings up to a length bound through every decoder on exact-size buffers (ASan redzones and guard pages), structure-aware mutation classes of valid encodings, against a spec-level grammar model; encoder boundary alphabets decoded back',
+             text='All octet strings of length 0..2 (thorough 0..3) plus 3-/4-octet families with long-tag and long-length introducers through a 16-decoder DER battery (TL, TLV, validity, SIZE, UINT, BIT, OCT, OID, PSTR, SEQ anchors), all strings of length 0..3 (0..4) over a 76-character alphabet through hex/base64/decimal, '
+                  'all APDU strings of length 0..7 over 5 octets and every Lc/Le form product, every tag word / length / SIZE / OID / APDU boundary value through the encoders and back; 140 mutation classes over 38 valid encodings (bign parameters, CV certificates, bpki containers, SM-protected APDUs: truncation at every prefix, every tag and length form, INTEGER and OID malformations, inconsistent nesting): '
+                  'no read outside the exact-size input, consumed <= input, accept iff the grammar accepts, accepted input re-encodes to itself, encoder output decodes to the value.',
+             note='trusted: ref/codec.py, ref/codec_st.py (vector-gated), ASan runtime, guard pages; length SIZE_MAX is outside the implementation limit in both directions', ref='4/C08'),
+ 'C16': dict(cat='model_checking', tech='bounded exhaustive enumeration of boundary-class tuples (parameter set x private key x hash x generator tape x signature length) and of every single-bit / boundary alteration of signature, key and hash on the real code against spec-level references of the verification equations',
+             text='bign96, g12s (8 sets), dstu (10 curves, base point generated per DSTU 6.8), pfok: private keys {1,2,q-2,q-1,filler} x hashes {0,1,all-ones,q,q+1,filler, DSTU truncation classes} x tape shapes (rejections, values >= q, 64/65 rejections) x admissible ld: generated pairs validate and equal the reference sampling, sign = reference where defined and verifies; '
+                  'every signature bit, r,s in {0,q,q+r}, every public-key bit and hash alteration accepted iff the reference equation accepts (rows engineered to s = 0, r = 0, t = 0); dstu compress/recover round trip incl. x = 0 and both trace classes; pfok DH / MTI symmetric and = pow().',
+             note='trusted: ref/bign.py, ref/g12s.py, ref/dstu.py, ref/ec2.py, ref/pfok.py (vector-gated)', ref='4/C16'),
  'C12': dict(cat='model_checking', tech='complete enumeration of finite domains (date tuples over an octet alphabet, every integer below 2^16/2^24 and in boundary windows, every binary polynomial of degree <= 16) and of field x perturbation tables of every standard parameter set on the real validators against independent references',
              text='tmDateIsValid2 on all 6-tuples over a 9- (thorough 15-) symbol octet alphabet, tmDateIsValid on every (y,m,d) of [1580,2105]x[0,13]x[0,32]; priIsPrimeW for EVERY n < 2^16 (2^24) and windows around 2^31, 2^32, 2^63, 2^64-1 and the Miller-Rabin base-set limits in both word sizes, Carmichael numbers < 10^10 (10^11), p(k(p-1)+1) families, strong pseudoprimes, products of standard primes/orders, multi-word Chernick numbers; '
                   'priNextPrimeW/priNextPrime from every start < 2^16 and the last 2^12 values below 2^l; priIsSieved/priIsSmooth likewise; ppIsIrred/belsValM on all polynomials of degree <= 16 and structured degree-128/192/256 families; '
